@@ -167,6 +167,14 @@ def check(cfg, lines):
                 held[n].remove(i)
             place[i] = ("disc", n)
             t_disc[(n, i)] = t
+            if not ncfg[n]["blocking"]:
+                outs_ = ncfg[n]["outs"]
+                probe = outs_ if ncfg[n]["outsel"][0] == "FA" else []
+                slack = ncfg[n]["wcap"] - 1
+                for e2 in probe:
+                    if len(inside[e2]) + slack < ecfg[e2]["cap"] and ecfg[e2]["kind"] == "buffer":
+                        v("C09", "non-blocking node %d dropped item %d at %s although out-edge %d held %d of %d" %
+                          (n, i, t, e2, len(inside[e2]), ecfg[e2]["cap"]))
             if ncfg[n]["blocking"]:
                 v("C09", "blocking node %d discarded item %d at %s" % (n, i, t))
         elif k == "R":
@@ -177,6 +185,9 @@ def check(cfg, lines):
             place[i] = ("recv", n)
             if i in creation:
                 cycle[n] += t - creation[i]
+    for i, pl in place.items():
+        if pl[0] == "sinkhold":
+            v("C03", "item %d was taken by sink %d but never counted as received" % (i, pl[1]))
     # ---------------- C03 accounting at the end
     n_gen = len(t_gen)
     tally = Counter(p[0] for p in place.values())
@@ -317,6 +328,24 @@ def check(cfg, lines):
                 if nc["blocking"] and ((nc["wcap"] == 1 and rec[:len(outs_used)] != outs_used) or
                                        (Counter(outs_used) - Counter(rec))):
                     v("C15", "machine %d recorded out-edge selections %s, items were pushed to %s" % (n, rec[:12], outs_used[:12]))
+        if kind == "splitter":
+            delays = nc["delays"]
+            for k, (t, pal, ed) in enumerate(pull_log[n]):
+                d = delays[k % len(delays)]
+                content = [i2 for (i2, _) in packed[pal]] + [pal]
+                firsts = [tp for (tp, i2, e2) in push_log[n] if i2 in content] + [t_disc[(n, x)] for x in content if (n, x) in t_disc]
+                if firsts and min(firsts) < t + d:
+                    v("C08", "splitter %d emitted part of pallet %d at %s, before pull time %s + delay %s" % (n, pal, min(firsts), t, d))
+        if kind == "combiner":
+            delays = nc["delays"]
+            pallets = [(t, pal) for (t, pal, ed) in pull_log[n] if ed == nc["ins"][0]]
+            for k, (t, pal) in enumerate(pallets):
+                d = delays[k % len(delays)]
+                ing = [tt for (tt, i2, e2) in pull_log[n] if any(i2 == x for (x, _) in packed[pal])]
+                ready = max([t] + ing) + d
+                outs = [tp for (tp, i2, e2) in push_log[n] if i2 == pal]
+                if outs and outs[0] < ready:
+                    v("C08", "combiner %d pushed pallet %d at %s, before last ingredient time + delay = %s" % (n, pal, outs[0], ready))
         if kind == "source":
             gens = sorted((t_gen[i], i) for i in t_gen if place_src(i, ev) == n)
             pol = nc["outsel"]
